@@ -18,6 +18,8 @@ written and read in the same order (u16 LE wrapped-DEK length, u16 LE nonce leng
 (5) Acceptance covers production: the minimum blob length decrypt_seed accepts is at most the smallest blob encrypt_seed can emit over the
 quantified ranges (wrapped DEK 16 bytes, plaintext 32 bytes: 4 + 16 + nonce + 32 + tag), and a wrapped-DEK length is refused only when it does not fit the blob
 (evaluated on the blobs encrypt_seed emits for wrapped keys of 16 .. 65535 bytes).
+(6) Statelessness: the AEAD key decrypt_seed opens the ciphertext with is kms.decrypt_dek(this blob's wrapped key) obtained in this call, on every path; nothing
+reachable from encrypt_seed / decrypt_seed touches a static of the crate (no memo of an earlier answer, so a provider fault is neither masked nor remembered).
 """
 NOT_DECIDED = "that any modification of the blob is detected (AEAD strength, trusted); behaviour of the cloud providers"
 TRUSTED = ["ring AEAD seal/open", "ring SystemRandom"]
